@@ -188,6 +188,10 @@ func (b *bitstream) Next() error {
 	// Parse the tag.
 	code, length := parseTag(c)
 
+	// The length nibble as written in the tag; a length decoded from a VarUInt below is a plain
+	// number and must not be mistaken for the null (15) or VarUInt-follows (14) markers.
+	lengthCode := length
+
 	// Structs with a length code of 1 are a special case. Their length is always encoded
 	// as a VarUInt and their field names appear in ascending symbol ID order.
 	if code == bitcodeStruct && length == 1 {
@@ -238,7 +242,7 @@ func (b *bitstream) Next() error {
 		}
 	}
 
-	if length == 0x0F {
+	if lengthCode == 0x0F {
 		// This value is actually a null.
 		b.code = code
 		b.null = true
@@ -249,7 +253,7 @@ func (b *bitstream) Next() error {
 	rem := b.remaining()
 
 	// This value's actual length is encoded as a separate varUint.
-	if length == 0x0E {
+	if lengthCode == 0x0E {
 		var lenghtOfRemaining uint64
 		length, lenghtOfRemaining, err = b.readVarUintLen(rem)
 		if err != nil {
